@@ -97,6 +97,9 @@ type Recorder struct {
 	Hijacked bool
 	// NoHijack makes the writer not implement a working Hijack.
 	HijackErr error
+	// Prefill: the buffered reader handed out by Hijack already holds whatever the transport has delivered
+	// (net/http reads ahead: bytes a client sent right behind its request sit in that buffer, not in the conn).
+	Prefill bool
 }
 
 func (r *Recorder) Header() http.Header {
@@ -125,7 +128,11 @@ func (r *Recorder) Hijack() (net.Conn, *bufio.ReadWriter, error) {
 		return nil, nil, errors.New("attach: no transport")
 	}
 	r.Hijacked = true
-	return r.Conn, bufio.NewReadWriter(bufio.NewReader(r.Conn), bufio.NewWriter(r.Conn)), nil
+	br := bufio.NewReader(r.Conn)
+	if r.Prefill {
+		br.Peek(1)
+	}
+	return r.Conn, bufio.NewReadWriter(br, bufio.NewWriter(r.Conn)), nil
 }
 
 // ServerOpts configures Server.
@@ -133,6 +140,7 @@ type ServerOpts struct {
 	Params    wire.Params // what the fabricated client offers / the result wanted
 	Threshold int
 	Mode      *websocket.CompressionMode
+	Prefill   bool // see Recorder.Prefill
 }
 
 // UpgradeRequest builds a valid upgrade request.
@@ -156,7 +164,7 @@ func Server(t net.Conn, o ServerOpts) (*websocket.Conn, *Recorder, error) {
 	if o.Mode != nil {
 		mode = *o.Mode
 	}
-	rec := &Recorder{Conn: t}
+	rec := &Recorder{Conn: t, Prefill: o.Prefill}
 	c, err := websocket.Accept(rec, r, &websocket.AcceptOptions{
 		CompressionMode:      mode,
 		CompressionThreshold: o.Threshold,
